@@ -394,4 +394,163 @@ theorem ft_filter_mem {t : FT} {es : Spec} (h : RIF t es) (f : List Nat) (hlen :
           exact List.getElem_mem hv
         exact ⟨k0, ⟨by omega, by rw [h.shape.1]; omega⟩, (t.keys.getD k0 []).getD v0 [], hbm, (id, (k0, v0) :: rest), hb, rfl⟩
 
+
+theorem asc_unique {es : Spec} (hasc : (es.map (·.1)).Pairwise (· < ·)) {id : Nat} {e e' : PF}
+    (h1 : (id, e) ∈ es) (h2 : (id, e') ∈ es) : e = e' := by
+  induction es with
+  | nil => cases h1
+  | cons x xs ih =>
+    simp only [List.map_cons, List.pairwise_cons] at hasc
+    rcases List.mem_cons.mp h1 with rfl | h1' <;> rcases List.mem_cons.mp h2 with h2' | h2'
+    · cases h2'; rfl
+    · have := hasc.1 id (List.mem_map.mpr ⟨(id, e'), h2', rfl⟩); simp at this
+    · subst h2'; have := hasc.1 id (List.mem_map.mpr ⟨(id, e), h1', rfl⟩); simp at this
+    · exact ih hasc.2 h1' h2'
+
+theorem bucket_in_range {F : List Nat} {keys : List (List Bucket)} (h : ShapeF F keys) {i v : Nat} {e : Entry}
+    (he : e ∈ bucket keys i v) : i < F.length ∧ v < F.getD i 0 := by
+  by_cases hi : i < F.length
+  · refine ⟨hi, ?_⟩
+    by_cases hv : v < F.getD i 0
+    · exact hv
+    · have : bucket keys i v = [] := by
+        show (keys.getD i []).getD v [] = []
+        rw [List.getD_eq_getElem?_getD (l := keys.getD i []), List.getElem?_eq_none (by rw [h.2 i hi]; omega)]; rfl
+      rw [this] at he; cases he
+  · have : bucket keys i v = [] := by
+      show (keys.getD i []).getD v [] = []
+      rw [List.getD_eq_getElem?_getD (l := keys), List.getElem?_eq_none (by rw [h.1]; omega)]; rfl
+    rw [this] at he; cases he
+
+/-- an id sits in exactly one bucket -/
+theorem RIF.bucket_unique {t : FT} {es : Spec} (h : RIF t es) {id : Nat} {e e' : PF} {i v i' v' : Nat}
+    (h1 : (id, e) ∈ bucket t.keys i v) (h2 : (id, e') ∈ bucket t.keys i' v') : i = i' ∧ v = v' := by
+  obtain ⟨r1, r2⟩ := bucket_in_range h.shape h1
+  obtain ⟨r1', r2'⟩ := bucket_in_range h.shape h2
+  obtain ⟨m1, hd1⟩ := (h.mem i v _ r1 r2).mp h1
+  obtain ⟨m2, hd2⟩ := (h.mem i' v' _ r1' r2').mp h2
+  have := asc_unique h.asc m1 m2
+  subst this
+  simp only at hd1 hd2
+  rw [hd1] at hd2
+  simp only [Option.some.injEq, Prod.mk.injEq] at hd2
+  exact hd2
+
+/-- ids of one row of buckets -/
+def rowIds (keys : List (List Bucket)) (i : Nat) : List Nat := (keys.getD i []).flatMap (fun b => b.map (·.1))
+
+theorem mem_rowIds {keys : List (List Bucket)} {i x : Nat} (hx : x ∈ rowIds keys i) : ∃ v e, (x, e) ∈ bucket keys i v := by
+  simp only [rowIds, List.mem_flatMap, List.mem_map] at hx
+  obtain ⟨b, hb, ⟨x', e⟩, hxe, rfl⟩ := hx
+  obtain ⟨v, hv, rfl⟩ := List.getElem_of_mem hb
+  refine ⟨v, e, ?_⟩
+  show (x', e) ∈ (keys.getD i []).getD v []
+  rw [List.getD_eq_getElem?_getD (l := keys.getD i []), List.getElem?_eq_getElem hv]; exact hxe
+
+theorem rowIds_nodup {t : FT} {es : Spec} (h : RIF t es) (i : Nat) : (rowIds t.keys i).Nodup := by
+  rw [List.nodup_iff_pairwise_ne]
+  simp only [rowIds]
+  rw [List.pairwise_flatMap]
+  constructor
+  · intro b hb
+    obtain ⟨v, hv, rfl⟩ := List.getElem_of_mem hb
+    have : (t.keys.getD i [])[v] = bucket t.keys i v := by
+      show _ = (t.keys.getD i []).getD v []
+      rw [List.getD_eq_getElem?_getD (l := t.keys.getD i []), List.getElem?_eq_getElem hv]; rfl
+    rw [this, ← List.nodup_iff_pairwise_ne]
+    exact h.nodupB i v
+  · rw [List.pairwise_iff_getElem]
+    intro a b ha hb hab x hx y hy hxy
+    subst hxy
+    have ea : (t.keys.getD i [])[a] = bucket t.keys i a := by
+      show _ = (t.keys.getD i []).getD a []
+      rw [List.getD_eq_getElem?_getD (l := t.keys.getD i []), List.getElem?_eq_getElem ha]; rfl
+    have eb : (t.keys.getD i [])[b] = bucket t.keys i b := by
+      show _ = (t.keys.getD i []).getD b []
+      rw [List.getD_eq_getElem?_getD (l := t.keys.getD i []), List.getElem?_eq_getElem hb]; rfl
+    rw [ea] at hx; rw [eb] at hy
+    obtain ⟨⟨_, e⟩, h1, rfl⟩ := List.mem_map.mp hx
+    obtain ⟨⟨_, e'⟩, h2, he⟩ := List.mem_map.mp hy
+    simp only at he
+    subst he
+    have := (h.bucket_unique h1 h2).2
+    omega
+
+/-- **no id is reported twice** by `FasterTrie::filter` -/
+theorem ft_filter_nodup {t : FT} {es : Spec} (h : RIF t es) (f : List Nat) : (t.filter f).Nodup := by
+  simp only [FT.filter]
+  rw [List.nodup_append]
+  refine ⟨?_, ?_, ?_⟩
+  · rw [List.nodup_iff_pairwise_ne, List.pairwise_flatMap]
+    constructor
+    · intro i _
+      rw [← List.nodup_iff_pairwise_ne]
+      exact List.Nodup.sublist ((List.filter_sublist).map _) (h.nodupB i _)
+    · apply List.Pairwise.imp _ (List.nodup_iff_pairwise_ne.mp List.nodup_range)
+      intro a b hab x hx y hy hxy
+      subst hxy
+      obtain ⟨⟨_, e⟩, h1, rfl⟩ := List.mem_map.mp hx
+      obtain ⟨⟨_, e'⟩, h2, he⟩ := List.mem_map.mp hy
+      simp only at he
+      subst he
+      exact hab (h.bucket_unique (List.mem_filter.mp h1).1 (List.mem_filter.mp h2).1).1
+  · rw [List.nodup_iff_pairwise_ne, List.pairwise_flatMap]
+    constructor
+    · intro i _
+      rw [← List.nodup_iff_pairwise_ne]
+      exact rowIds_nodup h i
+    · apply List.Pairwise.imp _ (List.nodup_iff_pairwise_ne.mp (List.nodup_range' 1))
+      intro a b hab x hx y hy hxy
+      subst hxy
+      obtain ⟨v, e, h1⟩ := mem_rowIds (show x ∈ rowIds t.keys a from hx)
+      obtain ⟨v', e', h2⟩ := mem_rowIds (show x ∈ rowIds t.keys b from hy)
+      exact hab (h.bucket_unique h1 h2).1
+  · intro x hx y hy hxy
+    subst hxy
+    obtain ⟨i, hi, hx'⟩ := List.mem_flatMap.mp hx
+    obtain ⟨i', hi', hy'⟩ := List.mem_flatMap.mp hy
+    have hi := List.mem_range.mp hi
+    have hi' := List.mem_range'_1.mp hi'
+    obtain ⟨⟨_, e⟩, h1, rfl⟩ := List.mem_map.mp hx'
+    obtain ⟨v', e', h2⟩ := mem_rowIds (show _ ∈ rowIds t.keys i' from hy')
+    have := (h.bucket_unique (List.mem_filter.mp h1).1 h2).1
+    omega
+
+theorem flatMap_range'_shift {β} (s m : Nat) (g : Nat → List β) :
+    (List.range' (s + 1) m).flatMap g = (List.range' s m).flatMap (fun i => g (i + 1)) := by
+  rw [List.range'_succ_left, List.flatMap_map]
+
+theorem flatMap_range'_getD {α β} (l : List α) (d : α) (g : α → List β) :
+    (List.range' 0 l.length).flatMap (fun i => g (l.getD i d)) = l.flatMap g := by
+  induction l with
+  | nil => rfl
+  | cons x xs ih =>
+    simp only [List.length_cons, List.range'_succ, List.flatMap_cons, List.getD_cons_zero]
+    congr 1
+    rw [flatMap_range'_shift]
+    simp only [List.getD_cons_succ]
+    exact ih
+
+/-- **FasterTrie::size = number of stored entries** -/
+theorem ft_size_spec {t : FT} {es : Spec} (h : RIF t es) : t.size = es.length := by
+  have hall : t.filter [] = t.keys.flatMap (fun r => r.flatMap (fun b => b.map (·.1))) := by
+    simp only [FT.filter, List.length_nil, List.range_zero, List.flatMap_nil, List.nil_append, Nat.sub_zero]
+    exact flatMap_range'_getD t.keys [] _
+  have hlen : (t.filter []).length = t.size := by
+    rw [hall, List.length_flatMap]
+    simp only [FT.size, List.length_flatMap, List.length_map]
+  have hnd := ft_filter_nodup h []
+  have hnd2 : (specIds es).Nodup := by
+    rw [List.nodup_iff_pairwise_ne]
+    exact h.asc.imp (fun hab => by omega)
+  have hperm : (t.filter []).Perm (specIds es) := by
+    rw [List.perm_ext_iff_of_nodup hnd hnd2]
+    intro a
+    rw [ft_filter_mem h [] (Nat.zero_le _) (fun j hj => by cases hj) a, mem_specFilter, mem_specIds]
+    constructor
+    · rintro ⟨e, he, _⟩; exact ⟨e, he⟩
+    · rintro ⟨e, he⟩; exact ⟨e, he, by simp [prefixPF, compatB]⟩
+  rw [← hlen, hperm.length_eq]
+  simp [specIds]
+
 end AITB.Trie
